@@ -1,5 +1,7 @@
 import ZV.Model.C03
 import ZV.Props.C23
+import ZV.Proofs.C03Dsa
+import ZV.Proofs.C03Sign
 /-!
   C03 — signature verification accepts exactly the genuine signatures.
 
@@ -15,22 +17,16 @@ import ZV.Props.C23
   * `dsa_range`: `dsa.Verify` accepts only 0 < r,s < q.
   * `csfk_rsa_pkcs1` (hash binding) and, through C23, `csfk_rsa_unique`, `csfk_rsa_message_binding`.
   * `csfk_unsupported`.
+  DSA correctness (helpers in ZV.Proofs.C03Dsa): `dsaVerify_of_dsaSign` (re-exported as `dsa_sign_verify`), `csfk_dsa_genuine`.
+  Claimed algorithm: `csfk_family_blind`, `csfk_family_mismatch` (the known finding as a theorem), `csfk_rsa_scheme`.
+  Signer side (model of both `signingParamsForPublicKey`, `GetSignatureAlgorithmFromAI`, signer options):
+  `signing_params_match_verify`, `signing_params_match_verify_ocsp`, `signing_params_no_panic`,
+  `created_rsa_verified_as_signed`, `sign_rows_match_model` (T1 rows of the real creation APIs = the model).
 -/
 namespace ZV.C03
 open ZV ZV.Hash
 
 /-! ### T1 -/
-
-/-- what `CheckSignatureFromKey` checks for algorithm `a` on a key of kind `kt`: (PSS?, hash id) -/
-def verifyScheme (kt : String) (a : Nat) : Option (Bool × Nat) :=
-  match algoHash a with
-  | some (some h) => some ((kt == "rsa") && isPSS a, h)
-  | _ => none
-
-def keyFamily (kt : String) : String :=
-  if kt == "rsa" then "RSA" else if kt == "ed25519" then "Ed25519" else "ECDSA"
-
-def detailsFamily (a : Nat) : Option String := (Gen.C03.x509Details.find? (fun r => r.1 == a)).map (·.2.1)
 
 /-- every object a creation API agrees to sign is signed with exactly the scheme its own verifier
     will check for the algorithm identifier written into it, and that identifier belongs to the key's family. -/
@@ -220,6 +216,14 @@ theorem csfk_unsupported (key : Key) (algo : Nat) (signed sig : Bytes) (o : Bool
   unfold checkSignatureFromKey
   rcases h with h | h <;> rw [h]
 
+/-- a public key of any Go type outside the type switch (crypto/rsa's key, a key passed by value, nil) verifies
+    nothing, under any algorithm. -/
+theorem csfk_other_key (algo : Nat) (signed sig : Bytes) (o : Bool) :
+    checkSignatureFromKey .other algo signed sig o = .err := by
+  unfold checkSignatureFromKey
+  split <;> try rfl
+  split <;> rfl
+
 /-! ### hypotheses are satisfiable -/
 example : algoHash 4 = some (some 5) ∧ (5 : Nat) ≠ 0 ∧ C23.hashAlg 5 = some HashAlg.sha256 ∧ isPSS 4 = false :=
   ⟨by decide, by decide, rfl, by decide⟩
@@ -307,5 +311,184 @@ theorem dsa_digest_as_integer {p q g x y : Nat} (hash rnd : Bytes) (r s : Int) (
           rw [hz, ih]
   · unfold dsaVerify
     rw [hz]
+
+/-! ### the signer side -/
+
+/-- FULL (signer side, x509): for EVERY key and EVERY requested algorithm, when `signingParamsForPublicKey` succeeds the
+    algorithm `GetSignatureAlgorithmFromAI` reads back from the identifier written into the object (a) belongs to the
+    key's family and (b) is verified by `CheckSignatureFromKey` with exactly the padding (PSS or not) and hash that
+    CreateCertificate / CreateCertificateRequest / CreateRevocationList hand to the signer. -/
+theorem signing_params_match_verify {label : String} {req : Nat} {sp : SignParams}
+    (h : signingParams x509Pkg label req = .ok sp) :
+    ∃ fam, labelFamily x509Pkg label = some fam ∧
+      detailsFamily (algoFromAI sp.oid sp.params) = some fam ∧
+      verifyScheme (ktOf fam) (algoFromAI sp.oid sp.params) = some (signerOpts req sp.hash) := by
+  have hk := signRowOk_all label req
+  unfold signRowOk at hk
+  rw [h] at hk
+  dsimp only at hk
+  split at hk
+  · next fam hf =>
+    simp only [Bool.and_eq_true, beq_iff_eq] at hk
+    exact ⟨fam, hf, hk.1.1, hk.1.2⟩
+  · contradiction
+
+theorem signing_params_match_verify_ocsp {label : String} {req : Nat} {sp : SignParams}
+    (h : signingParams ocspPkg label req = .ok sp) :
+    ∃ fam, labelFamily ocspPkg label = some fam ∧
+      detailsFamily (algoFromOID sp.oid) = some fam ∧
+      verifyScheme (ktOf fam) (algoFromOID sp.oid) = some (signerOptsOcsp sp.hash) := by
+  have hk := signRowOkOcsp_all label req
+  unfold signRowOkOcsp at hk
+  rw [h] at hk
+  dsimp only at hk
+  split at hk
+  · next fam hf =>
+    simp only [Bool.and_eq_true, beq_iff_eq] at hk
+    exact ⟨fam, hf, hk.1.1.1, hk.1.1.2⟩
+  · contradiction
+
+/-- neither copy of `signingParamsForPublicKey` can panic (`rsaPSSParameters` is only reached with SHA-256/384/512). -/
+theorem signing_params_no_panic (label : String) (req : Nat) :
+    signingParams x509Pkg label req ≠ .panic ∧ signingParams ocspPkg label req ≠ .panic := by
+  constructor
+  · intro h
+    have hk := signRowOk_all label req
+    simp [signRowOk, h] at hk
+  · intro h
+    have hk := signRowOkOcsp_all label req
+    simp [signRowOkOcsp, h] at hk
+
+/-! ### (b) the claimed algorithm reaches the verdict only through its hash and `isRSAPSS` -/
+
+/-- `CheckSignatureFromKey` never looks at the key family of the claimed algorithm: two algorithms with the same hash in
+    the first switch and the same `isRSAPSS` get the same verdict on EVERY key, message and signature. -/
+theorem csfk_family_blind (key : Key) {a b : Nat} (signed sig : Bytes) (o : Bool)
+    (hh : algoHash a = algoHash b) (hp : isPSS a = isPSS b) :
+    checkSignatureFromKey key a signed sig o = checkSignatureFromKey key b signed sig o := by
+  unfold checkSignatureFromKey
+  rw [hh]
+  split <;> try rfl
+  split <;> try rfl
+  cases key <;> simp only [dispatchKey, hp]
+
+/-- the key-family mismatch (known finding, corpus/C03/finding-family-mismatch.line): with an RSA key, ECDSAWithSHA256
+    (10) and DSAWithSHA256 (8) are verified exactly as SHA256WithRSA (4): PKCS #1 v1.5 with SHA-256 — so an RSA signature
+    relabelled with an ECDSA / DSA identifier is accepted; likewise every RSA or DSA identifier on an ECDSA key.  The
+    clause "verification fails whenever the claimed algorithm is changed" therefore holds only up to (hash, isRSAPSS). -/
+theorem csfk_family_mismatch (pub : C23.Pub) (signed sig : Bytes) (o : Bool) :
+    checkSignatureFromKey (.rsa pub) 10 signed sig o = checkSignatureFromKey (.rsa pub) 4 signed sig o ∧
+    checkSignatureFromKey (.rsa pub) 8 signed sig o = checkSignatureFromKey (.rsa pub) 4 signed sig o ∧
+    checkSignatureFromKey .ecdsa 4 signed sig o = checkSignatureFromKey .ecdsa 10 signed sig o ∧
+    detailsFamily 10 = some "ECDSA" ∧ detailsFamily 8 = some "DSA" ∧ detailsFamily 4 = some "RSA" :=
+  ⟨csfk_family_blind _ _ _ _ (by decide) (by decide), csfk_family_blind _ _ _ _ (by decide) (by decide),
+   csfk_family_blind _ _ _ _ (by decide) (by decide), by decide, by decide, by decide⟩
+
+/-- what the family of the claimed algorithm DOES guarantee: an RSA-PSS verification is only ever run for an
+    algorithm of the RSA family (`pss_algos_total`), and the PSS / PKCS #1 v1.5 choice is the only use of the identifier
+    beyond its hash. -/
+theorem csfk_rsa_scheme {pub : C23.Pub} {algo h : Nat} {ha : HashAlg} (signed sig : Bytes) (o : Bool)
+    (halgo : algoHash algo = some (some h)) (hh : h ≠ 0) (hha : C23.hashAlg h = some ha) :
+    checkSignatureFromKey (.rsa pub) algo signed sig o =
+      if isPSS algo then C23.verifyPSS pub ha (ha.hash signed) sig (-1)
+      else C23.verifyPKCS1v15 pub h (ha.hash signed) sig := by
+  unfold checkSignatureFromKey
+  rw [halgo]
+  simp only [digestOf, hh, if_false, hha, dispatchKey]
+
+example : algoHash 13 = some (some 5) ∧ (5 : Nat) ≠ 0 ∧ C23.hashAlg 5 = some HashAlg.sha256 ∧ isPSS 13 = true :=
+  ⟨by decide, by decide, rfl, by decide⟩
+
+/-! ### (a) DSA: what `dsa.Sign` makes, `CheckSignatureFromKey` accepts -/
+
+/-- DSA correctness at the level of `CheckSignatureFromKey`: for a prime `q`, `g^q ≡ 1 (mod p)` and the public key
+    `y = g^x mod p`, the DER coding of ANY pair `dsa.Sign` returns for the digest of the signed bytes (any random stream)
+    is accepted, under every algorithm with a real hash. -/
+theorem csfk_dsa_genuine {p q g x algo h r s : Nat} {ha : HashAlg} {signed rnd sig : Bytes} (o : Bool)
+    (hq : Nat.Prime q) (hg : g ^ q % p = 1)
+    (halgo : algoHash algo = some (some h)) (hh : h ≠ 0) (hha : C23.hashAlg h = some ha)
+    (hs : dsaSign p q g x (ha.hash signed) rnd = .ok (r, s))
+    (hsig : parseSig sig = some ((r : Int), (s : Int), [])) :
+    checkSignatureFromKey (.dsa p q g (C23.modPow g x p)) algo signed sig o = .ok () := by
+  unfold checkSignatureFromKey
+  rw [halgo]
+  simp only [digestOf, hh, if_false, hha, dispatchKey]
+  rw [derArm_accept_iff]
+  have hr := dsaSign_range hs
+  exact ⟨r, s, [], hsig, fun _ => rfl, by omega, by omega, dsaVerify_of_dsaSign hq hg hs⟩
+
+example : Nat.Prime 251 ∧ 4 ^ 251 % 503 = 1 ∧ dsaSign 503 251 4 5 [9] [7] = .ok (37, 207) ∧
+    parseSig [0x30, 0x07, 0x02, 0x01, 37, 0x02, 0x02, 0x00, 207] = some (37, 207, []) :=
+  ⟨by norm_num, by norm_num, dsaSign_example, by decide⟩
+
+/-! ### (c) the recorded behaviour of the real creation APIs is the model's -/
+
+/-- every row recorded at run time from the REAL CreateCertificate / CreateCertificateRequest / CreateCRL /
+    CreateRevocationList / ocsp.CreateResponse (algorithm the parser reads back, options the signer received) is what
+    the model of `signingParamsForPublicKey` + `GetSignatureAlgorithmFromAI` + the signer-option rule computes. -/
+theorem sign_rows_match_model : (Gen.C03.signRows.all signRowMatches) = true := by
+  decide +kernel
+
+/-- every (API, algorithm, key) the real creation APIs refuse is one the model refuses (CreateCRL has no algorithm
+    parameter: the harness refuses every non-zero request itself). -/
+theorem refused_rows_match_model : (Gen.C03.refusedRows.all refusedRowMatches) = true := by
+  decide +kernel
+
+/-- DSA correctness, all inputs: whatever the digest and the random stream, a pair `dsa.Sign` returns is accepted by
+    `dsa.Verify` under the matching public key `y = g^x mod p`, for `q` prime and `g^q ≡ 1 (mod p)` (proof in
+    ZV.Proofs.C03Dsa: Bezout for the model's extended Euclid, Fermat in `ZMod q`, exponent reduction mod `q`). -/
+theorem dsa_sign_verify {p q g x : Nat} {hash rnd : Bytes} {r s : Nat}
+    (hq : Nat.Prime q) (hg : g ^ q % p = 1) (h : dsaSign p q g x hash rnd = .ok (r, s)) :
+    dsaVerify p q g (C23.modPow g x p) hash (r : Int) (s : Int) = true :=
+  dsaVerify_of_dsaSign hq hg h
+
+/-- an object created with an RSA key is verified with the padding and hash its signer was asked for: for every
+    requested algorithm the x509 creation APIs accept with an RSA key, `CheckSignatureFromKey` on the algorithm read back
+    from the object IS `VerifyPSS` (salt length = hash length) when the signer got `*rsa.PSSOptions`, `VerifyPKCS1v15`
+    otherwise, with the signer's hash, on the digest of the signed bytes under that hash. -/
+theorem created_rsa_verified_as_signed {req : Nat} {sp : SignParams}
+    (h : signingParams x509Pkg "*rsa.PublicKey" req = .ok sp) :
+    ∃ ha, C23.hashAlg sp.hash = some ha ∧ ∀ (pub : C23.Pub) (signed sig : Bytes) (o : Bool),
+      checkSignatureFromKey (.rsa pub) (algoFromAI sp.oid sp.params) signed sig o =
+        if (signerOpts req sp.hash).1 then C23.verifyPSS pub ha (ha.hash signed) sig (-1)
+        else C23.verifyPKCS1v15 pub sp.hash (ha.hash signed) sig := by
+  have hk := signRowOk_all "*rsa.PublicKey" req
+  unfold signRowOk at hk
+  rw [h] at hk
+  have hf : labelFamily x509Pkg "*rsa.PublicKey" = some "RSA" := by decide
+  rw [hf] at hk
+  dsimp only at hk
+  simp only [Bool.and_eq_true] at hk
+  obtain ⟨⟨_, h2⟩, h3⟩ := hk
+  have hrsa : ("RSA" != "RSA") = false := by decide
+  rw [hrsa, Bool.false_or, Bool.and_eq_true] at h3
+  have hne : sp.hash ≠ 0 := bne_iff_ne.1 h3.1
+  obtain ⟨ha, hha⟩ := Option.isSome_iff_exists.1 h3.2
+  have hv := eq_of_beq h2
+  refine ⟨ha, hha, ?_⟩
+  intro pub signed sig o
+  have hkt : ktOf "RSA" = "rsa" := by decide
+  rw [hkt] at hv
+  unfold verifyScheme at hv
+  split at hv
+  · next h' halgo =>
+    have hv := Option.some.inj hv
+    have hkk : ("rsa" == "rsa") = true := by decide
+    simp only [signerOpts, Prod.mk.injEq, hkk, Bool.true_and] at hv
+    obtain ⟨hp, rfl⟩ := hv
+    rw [csfk_rsa_scheme signed sig o halgo hne hha]
+    simp only [signerOpts, ← hp]
+  · contradiction
+
+example : ∃ sp, signingParams x509Pkg "*rsa.PublicKey" 13 = .ok sp ∧ algoFromAI sp.oid sp.params = 13 ∧
+    signerOpts 13 sp.hash = (true, 5) := ⟨⟨5, Gen.C03.pssOid, .pss 5⟩, by decide, by decide, by decide⟩
+example : ∃ sp, signingParams x509Pkg "*ecdsa.PublicKey:P384" 0 = .ok sp ∧ algoFromAI sp.oid sp.params = 11 :=
+  ⟨⟨6, [1, 2, 840, 10045, 4, 3, 3], .absent⟩, by decide, by decide⟩
+example : ∃ sp, signingParams ocspPkg "*rsa.PublicKey" 4 = .ok sp ∧ algoFromOID sp.oid = 4 :=
+  ⟨⟨5, [1, 2, 840, 113549, 1, 1, 11], .null⟩, by decide, by decide⟩
+/-- what the signer side refuses: another family's algorithm, MD2, RSA-PSS in ocsp, unknown curve / key type -/
+example : signingParams x509Pkg "*rsa.PublicKey" 10 = .err ∧ signingParams x509Pkg "*rsa.PublicKey" 1 = .err ∧
+    signingParams ocspPkg "*rsa.PublicKey" 13 = .err ∧ signingParams ocspPkg "ed25519.PublicKey" 0 = .err ∧
+    signingParams x509Pkg "*ecdsa.PublicKey:other" 0 = .err := by decide
 
 end ZV.C03
